@@ -22,6 +22,9 @@ var intrinsicDocs = map[string]string{
 	"bufio.NewReaderSize":                "bufio.NewReaderSize(rd,n): fresh reader at stream position 0 of rd",
 	"(binary.bigEndian).Uint32":          "BigEndian.Uint32(b): requires len(b)>=4; big-endian value of b[0..4)",
 	"(binary.bigEndian).Uint16":          "BigEndian.Uint16(b): requires len(b)>=2; big-endian value of b[0..2)",
+	"(binary.bigEndian).AppendUint16":    "BigEndian.AppendUint16(b,v): append(b, the two big-endian bytes of v)",
+	"(binary.bigEndian).AppendUint32":    "BigEndian.AppendUint32(b,v): append(b, the four big-endian bytes of v)",
+	"(binary.bigEndian).AppendUint64":    "BigEndian.AppendUint64(b,v): append(b, the eight big-endian bytes of v)",
 	"(binary.bigEndian).PutUint32":       "BigEndian.PutUint32(b,v): requires len(b)>=4; stores the four big-endian bytes of v into b[0..4)",
 	"(binary.bigEndian).PutUint16":       "BigEndian.PutUint16(b,v): requires len(b)>=2; stores the two big-endian bytes of v",
 	"bytes.IndexByte":                    "bytes.IndexByte(b,c): -1 (and, for c==0, b is NUL-free) or an index i<len(b) with b[i]==c (and, for c==0, b[:i] NUL-free)",
@@ -136,6 +139,22 @@ func init() {
 			return Value{T: resT}
 		}
 	}
+	// binary.BigEndian.AppendUintN(b, v) = append(b, big-endian bytes of v...)
+	appendUint := func(n int) intrinsic {
+		return func(ex *Exec, fr *Frame, st *State, site ssa.Instruction, args []Value, resT types.Type) Value {
+			b, v := args[len(args)-2], args[len(args)-1].L[0]
+			tmp := ex.newObj(st)
+			for i := 0; i < n; i++ {
+				shift := IntB(pow2[8*(n-1-i)])
+				st.storeElem(tmp, Int(int64(i)), Value{T: tByte, L: []*Term{Mod(Div(v, shift), Int(256))}})
+			}
+			bt := types.NewSlice(tByte)
+			return ex.appendSlices(st, bt, Value{T: bt, L: b.L}, sliceVal(bt, tmp, Int(0), Int(int64(n)), Int(int64(n))))
+		}
+	}
+	intrinsics["(binary.bigEndian).AppendUint16"] = appendUint(2)
+	intrinsics["(binary.bigEndian).AppendUint32"] = appendUint(4)
+	intrinsics["(binary.bigEndian).AppendUint64"] = appendUint(8)
 	intrinsics["(binary.bigEndian).PutUint32"] = put(4)
 	intrinsics["(binary.bigEndian).PutUint16"] = put(2)
 	intrinsics["bytes.IndexByte"] = func(ex *Exec, fr *Frame, st *State, site ssa.Instruction, args []Value, resT types.Type) Value {
